@@ -110,6 +110,80 @@ def _decorator_names(node) -> List[str]:
     return out
 
 
+class _CounterLoops(ast.NodeTransformer):
+    """Semantics-preserving normalisation of the manual loop counter
+
+        i = <int>                      i = <int>
+        for x in xs:          ==>      for i, x in enumerate(xs, start=<int> + 1):
+            i += 1                         BODY
+            BODY
+
+    (and the trailing form `BODY; i += 1` == enumerate(xs, start=<int>) when BODY has no `continue`), applied only when
+    i is not otherwise stored in the loop, the loop has no else-clause and nothing between the assignment and the
+    loop mentions i.  The interpreter then sees the counter as what it is: the position of x."""
+
+    def _rewrite(self, body):
+        out = list(body)
+        for k, s in enumerate(out):
+            if not (isinstance(s, ast.For) and not s.orelse and s.body):
+                continue
+            first, last = s.body[0], s.body[-1]
+
+            def inc(n):
+                return isinstance(n, ast.AugAssign) and isinstance(n.op, ast.Add) and isinstance(n.target, ast.Name) \
+                    and isinstance(n.value, ast.Constant) and n.value.value == 1
+            for pos, stmt in ((0, first), (-1, last)):
+                if not inc(stmt):
+                    continue
+                name = stmt.target.id
+                rest = s.body[1:] if pos == 0 else s.body[:-1]
+                if not rest:
+                    continue
+                stores = [n for r in rest for n in ast.walk(r) if isinstance(n, ast.Name) and n.id == name and not isinstance(n.ctx, ast.Load)]
+                if stores or any(isinstance(n, ast.Name) and n.id == name for n in ast.walk(s.target)) \
+                        or any(isinstance(n, ast.Name) and n.id == name for n in ast.walk(s.iter)):
+                    continue
+                if pos == -1 and any(isinstance(n, ast.Continue) for r in rest for n in ast.walk(r)):
+                    continue
+                # the initialisation: the closest preceding statement `name = <int>`, nothing in between mentions name
+                init = None
+                for j in range(k - 1, -1, -1):
+                    p = out[j]
+                    if isinstance(p, ast.Assign) and len(p.targets) == 1 and isinstance(p.targets[0], ast.Name) and p.targets[0].id == name \
+                            and isinstance(p.value, (ast.Constant, ast.UnaryOp)):
+                        try:
+                            v = ast.literal_eval(p.value)
+                        except Exception:
+                            v = None
+                        if isinstance(v, int) and not isinstance(v, bool):
+                            init = v
+                        break
+                    if any(isinstance(n, ast.Name) and n.id == name for n in ast.walk(p)):
+                        break
+                if init is None:
+                    continue
+                start = init + 1 if pos == 0 else init
+                call = ast.Call(func=ast.Name(id='enumerate', ctx=ast.Load()), args=[s.iter],
+                                keywords=[ast.keyword(arg='start', value=ast.Constant(value=start))] if start else [])
+                target = ast.Tuple(elts=[ast.Name(id=name, ctx=ast.Store()), s.target], ctx=ast.Store())
+                new = ast.For(target=target, iter=call, body=rest, orelse=[], type_comment=None)
+                ast.copy_location(new, s)
+                ast.copy_location(call, s.iter)
+                ast.copy_location(target, s.target)
+                ast.fix_missing_locations(new)
+                out[k] = new
+                break
+        return out
+
+    def generic_visit(self, node):
+        super().generic_visit(node)
+        for field in ('body', 'orelse', 'finalbody'):
+            b = getattr(node, field, None)
+            if isinstance(b, list) and b and isinstance(b[0], ast.stmt):
+                setattr(node, field, self._rewrite(b))
+        return node
+
+
 class Program:
     def __init__(self, repo: str, package: str = 'mosromgr'):
         self.repo = os.path.abspath(repo)
@@ -140,7 +214,7 @@ class Program:
                     raw = f.read()
                 try:
                     src = raw.decode('utf-8')
-                    tree = ast.parse(src, filename=path)
+                    tree = _CounterLoops().visit(ast.parse(src, filename=path))
                 except (SyntaxError, UnicodeDecodeError) as e:
                     raise AnalysisError(f'cannot parse {rel}: {e}')
                 self.modules[name] = ModuleInfo(
